@@ -7,6 +7,7 @@ Theorem cut_delivers_exactly_the_shared_part : forall c o w k,
     snd (fst (run_bytes c o (firstn k w))) = pre ++ tl /\
     snd (fst (run_bytes c o w)) = pre ++ rest /\
     deliveries_of (snd (fst (run_bytes c o (firstn k w)))) = deliveries_of pre /\
-    deliveries_of (snd (fst (run_bytes c o w))) = deliveries_of pre ++ deliveries_of rest.
+    deliveries_of (snd (fst (run_bytes c o w))) = deliveries_of pre ++ deliveries_of rest /\
+    (length tl <= 2)%nat.
 Proof. first [exact SmtpCutTrace.cut_delivers_exactly_the_shared_part | intros; apply SmtpCutTrace.cut_delivers_exactly_the_shared_part]. Qed.
 Print Assumptions cut_delivers_exactly_the_shared_part.
